@@ -9,6 +9,7 @@ INVARIANTS
   C15_NoIdTwiceInPool
   C15_MeterCellsStayInOwnPool
   C15_PeerIdsInUseStayAllocated
+  C15_CellsOfStoredRulesStayAllocated
   C15_FailedWriteMeansRejection
 POSTCONDITION TraceAccepted
 ALIAS AliasC15
